@@ -1,5 +1,6 @@
 // vcheck: dispatcher for the runtime monitors.
-//   vcheck <Cxx> <quick|thorough>
+//
+//	vcheck <Cxx> <quick|thorough>
 package main
 
 import (
